@@ -279,7 +279,7 @@ def judge_value(chk, v, e):
         raise common.Inconclusive(f'dt.try {v}: unusable event {str(e)[:200]}')
     if (res == 'ok') != should:
         obs = {'check': 'acceptance', 'expected': 'accept' if should else 'reject', 'observed': 'accepted' if res == 'ok' else 'rejected',
-               'group_class': why, 'accepted_hour_minute': 'single_value_hour<24_minute<60' if res == 'ok' else None}
+               'group_class': why, 'accepted_hour_minute': 'single_value' if res == 'ok' else None}
         chk.count(chk.violation(obs, rp))
         return
     if res == 'ok':
@@ -298,7 +298,8 @@ def run(tier, replay=None):
                        'all 2^32 values through DateTime::try_from (driver, 16 threads), summarised per (year, month, day, weekday) group '
                        'and compared with an independent calendar (datetime + days-from-civil); differing and seeded random groups '
                        'judged value by value from the accepted bitmap; seeded single values with all accessors; '
-                       'distinct = (oracle class, year, month) combinations judged + single-value classes')
+                       'distinct = (year, month) blocks whose 512 date/weekday groups matched the oracle summary + (oracle class, year, month) '
+                       'combinations judged value by value + single-value (oracle class, result) pairs')
     n_dates = selftest()
     binary = common.cargo_build('misc_driver')
     chk.assumptions += ['proleptic Gregorian calendar for 2000..2255; weekday field 0 = Sunday, month/day zero-based (types/datetime.md)',
